@@ -197,7 +197,28 @@ def run_case(case):
     return r
 
 
+# fixed name-configuration cases (one per shard): configured names of
+# different lengths, requests that read the configured names back (order of
+# an amplitude / density name, intermediate lookup by long name, printing)
+CONF_A = {"eri": "W", "coulomb": "u", "fock": "h", "operator": "Delta",
+          "gs_amplitude": "T", "gs_density": "rho",
+          "left_adc_amplitude": "L", "right_adc_amplitude": "R",
+          "orb_energy": "eps", "sym_orb_denom": "G"}
+CONF_B = dict(DEFAULTS, gs_amplitude="amp", gs_density="P", eri="J",
+              sym_orb_denom="Delta")
+FIXED_REQ = ["expand_density", "p0_2_oo", "t2_2", "reduce_t1_2", "m_ph_ph_2",
+             "tm_2", "expec_block_1", "mvp_1", "norm_2", "energy2",
+             "mp_amp_2_ph", "psi_2", "precursor_1", "expec_2", "tm_1",
+             "t1_2_once"]
+
+
 def run_shard(col, shard, nshards, seed, tier):
+    for k in range(shard, 2 * len(FIXED_REQ), nshards):
+        conf = CONF_A if (k // len(FIXED_REQ) + k) % 2 == 0 else CONF_B
+        if tier == "quick" and k >= len(FIXED_REQ):
+            break
+        col.run({"request": FIXED_REQ[k % len(FIXED_REQ)], "history": [],
+                 "hashseed": 0, "names": dict(conf)}, run_case)
     drive(strategy(tier), run_case, N_EXAMPLES[tier], seed * 1000 + shard,
           col)
 
